@@ -391,6 +391,32 @@ fn run_w<W: TW>(cx: &mut Ctx, s: &Sys) -> R {
             }
         }
     }
+    // several solver calls on the SAME object: the solvers rewrite the rows in place but only by row operations,
+    // so whatever a later call returns as Ok must still satisfy the original equations (an error is tolerated
+    // there: earlier calls may leave identity rows, which the plain elimination refuses)
+    if s.num_vars <= 200 && s.eqs.len() <= 200 && s.planted.is_none() {
+        let mut sys = cx.must("clone", || orig.clone())?;
+        let mut code = s.eqs.iter().fold(s.num_vars as u64 ^ 0x5bd1_e995, |a, (v, c)| a.rotate_left(5) ^ v.len() as u64 ^ *c as u64);
+        let mut script = vec![];
+        for step in 0..3 {
+            let lazy = (code >> step) & 1 == 1;
+            script.push(if lazy { "lazy" } else { "plain" });
+            // (an error or a panic is tolerated here: identity rows left by an earlier call make the plain
+            // elimination refuse or index an empty row, see DESIGN.md section 7)
+            let r = cx.any(|| if lazy { sys.lazy_gaussian_elimination() } else { sys.gaussian_elimination() });
+            if let Some(Ok(sol)) = r {
+                if sol.len() != s.num_vars {
+                    return Err(Fail::mismatch("same_object", format!("same_object: after the calls {script:?} on one object the solution has {} entries for {} variables", sol.len(), s.num_vars)));
+                }
+                let bad = s.eqs.iter().position(|(vars, c)| vars.iter().fold(0u128, |a, v| a ^ sol[*v as usize].to128()) != *c);
+                if let Some(i) = bad {
+                    return Err(Fail::mismatch("same_object", format!("same_object: the calls {script:?} on one system object: the last one returned Ok with an assignment violating equation {i} of the original system{}", if solvable { "" } else { " (which is unsolvable)" })));
+                }
+            }
+            code = code.rotate_right(7);
+        }
+        cx.label("same_object_scripts");
+    }
     if s.num_vars > 1 << 24 {
         return Ok(()); // no full assignments for systems with billions of variables
     }
@@ -431,7 +457,7 @@ impl Property for C19 {
         ]
     }
     fn rule(&self) -> &'static str {
-        "case = system over W in {u8,u16,u64,usize,u128} with <=70 variables and <=~70 equations whose variable lists are non-empty, strictly increasing and below num_vars (sizes 1..6, mostly 3), shaped as planted-solution, planted+contradictory combination, arbitrary constants, repeated rows, rank-deficient, 3-uniform and fuse-like (segment) systems; plus the complete enumeration of all systems with 3 variables, <=4 equations and 1-bit constants. plus an enumerated segment of planted/contradictory systems with rows of 255..257, 511, 65535..65538, 70000 and 131072 variables (global parity rows, halves, near-complements) next to short rows. plus an enumerated segment of 65537..68536 sparse equations over 66000..131072 variables in which 2-3 variables occur in 65535..65540 (or all) equations, solvable by construction or with one contradicting copy (lazy solver only: the plain elimination is quadratic). plus planted/contradictory systems over 2^31+16 .. 2^32-1 variables of u8 whose rows mix indices below and above 2^31 (plain elimination only). Oracle = independent dense Gauss-Jordan elimination in the harness; both solvers run on clones: Ok iff solvable, solution length, harness evaluator and check(). Non-trivial: at least 2 equations sharing a variable; distinct = distinct hash of the decoded system."
+        "case = system over W in {u8,u16,u64,usize,u128} with <=70 variables and <=~70 equations whose variable lists are non-empty, strictly increasing and below num_vars (sizes 1..6, mostly 3), shaped as planted-solution, planted+contradictory combination, arbitrary constants, repeated rows, rank-deficient, 3-uniform and fuse-like (segment) systems; plus the complete enumeration of all systems with 3 variables, <=4 equations and 1-bit constants. plus an enumerated segment of planted/contradictory systems with rows of 255..257, 511, 65535..65538, 70000 and 131072 variables (global parity rows, halves, near-complements) next to short rows. plus an enumerated segment of 65537..68536 sparse equations over 66000..131072 variables in which 2-3 variables occur in 65535..65540 (or all) equations, solvable by construction or with one contradicting copy (lazy solver only: the plain elimination is quadratic). plus planted/contradictory systems over 2^31+16 .. 2^32-1 variables of u8 whose rows mix indices below and above 2^31 (plain elimination only). After the per-call checks, three further solver calls (a generated plain/lazy script) run on ONE system object: any Ok must still satisfy the original equations. Oracle = independent dense Gauss-Jordan elimination in the harness; both solvers run on clones: Ok iff solvable, solution length, harness evaluator and check(). Non-trivial: at least 2 equations sharing a variable; distinct = distinct hash of the decoded system."
     }
     fn run(&self, data: &[u8], cx: &mut Ctx) -> R {
         let (mode, rest) = data.split_first().unwrap_or((&0, &[]));
